@@ -37,6 +37,10 @@ CHECKS = {
    text="Deductive: map_instance_labels is executed symbolically on symbolic instance maps of every unsigned dtype (constructed by the real UnmatchedInstancePair constructor) and a symbolic label map satisfying the matcher postcondition; the fresh-label loop is proved by invariant (domain, kept entries, counter, fresh labels); posts from the statement: reference map and caller arrays unchanged, foreground unchanged, matched prediction carries exactly its reference label, unmatched prediction gets a label above every reference label, same partition except predictions of one reference; _map_labels' precondition is discharged at the call site and its body is proved in C09; match_instances relabels a copy with the matcher's map. Refuted obligations are replayed by a family search on the real function; bounded end-to-end enumeration with three matchers.",
    note=TRUST_COMMON + "matcher postcondition (label map maps prediction labels to reference labels) from C03/C14; np.unique contract incl. spacing of distinct integers; labels below 2^24.",
    tech="contract-based deductive verification: symbolic execution with loop invariant over a map abstraction, call-site precondition obligations, z3"),
+ "C12": dict(cat="proof", design="DESIGN.md 3 C12",
+   text="Deductive, relational by equal arguments: Panoptica_Evaluator.evaluate and _evaluate_group are executed symbolically (symbolic arrays, one plain, one merge and one single-instance group with symbolic label sets, all three input types, and the ungrouped evaluator) with panoptic_evaluate summarised; its arguments for group g are proved to be the pair class of the input type (already-matched pair with threshold 0 for a single-instance group), arrays equal per voxel to g(pred), g(ref) in fresh buffers, and the evaluator's own configuration objects; the undefined-label check is proved to run, raising, on both arrays before any group; no attribute of the evaluator or its components is written. LabelGroup/LabelMergeGroup/_LabelGroupAny extraction and has_defined_labels_for (loop invariant over np.unique) are proved against per-voxel specs; constructors on concrete definitions. Bounded: grouped result vs ungrouped result on restricted arrays through the real evaluator.",
+   note=TRUST_COMMON + "panoptic_evaluate summarised here (pipeline is C01, purity C15); numpy model.",
+   tech="contract-based deductive verification: relational equal-argument obligations from symbolic execution, loop invariant, frame conditions from the effect trace"),
 }
 NA_REASON = "check not built yet (build in progress, see DESIGN.md section 7)"
 def main():
